@@ -16,7 +16,7 @@ from ..constfold import Folder
 from ..dataflow import Flow, chain, call_name
 from ..absint import Interp
 from ..poly import Poly, le, lt, eq
-from ..terms import Terms, mk_cmp, is_none, unsite, split_cond, \
+from ..terms import Terms, mk_cmp, is_none, plain, split_cond, \
     alternatives, match, V, ANY, show, lookup, subterms
 from ..util import calls_in, qual, formals, returns_of, raises_of, \
     raise_name, has_fact, bind, parse_expr
@@ -212,7 +212,7 @@ def straight_through(facts, ENT):
     """Which of the conditions 'exactly one source / one route / the source
     is not None / the route is a link / the source is the link opposite the
     route' are among the (canonical) facts about entry ``ENT``."""
-    facts = [(unsite(t), p) for t, p in facts]
+    facts = [(plain(t), p) for t, p in facts]
     SRCS, ROUTE = ("attr", ENT, "sources"), ("attr", ENT, "route")
     got = set()
 
@@ -338,12 +338,12 @@ def r2_default(program, rep):
             continue
         n_off += 1
         v, pol = M.cond(b_.value, b_.node, True)
-        facts = [(unsite(t), p) for t, p in M.all_facts(b_.node)]
+        facts = [(plain(t), p) for t, p in M.all_facts(b_.node)]
         if v == ("const", True):
             continue
         if v != ("const", False):
             # the flag is off only when the assigned condition is false
-            facts += [(unsite(t), p) for t, p in split_cond(v, not pol)]
+            facts += [(plain(t), p) for t, p in split_cond(v, not pol)]
         ok = ok and all(x in facts for x in need)
     rep.check(ok and n_off >= 1, "C04-R2", qual(mn), "the alias check is "
               "skipped only when all masks are equal and all keys distinct "
@@ -375,7 +375,7 @@ def r2_default(program, rep):
         built = M.filtered(M.term(r.value))
         if built and len(built) == 1:
             it, elt, conds = built[0]
-            okk = unsite(it) == ("call", ("global", "enumerate"), (TBL,),
+            okk = plain(it) == ("call", ("global", "enumerate"), (TBL,),
                                  ()) and elt == ("elem", TBL) and \
                 len(conds) == 1 and conds[0][1] is False and \
                 conds[0][0][0] == "call" and \
@@ -610,7 +610,7 @@ def r3_ranges(program, rep):
                              ()))
         want = ("call", ("global", "sorted"), (("param", formals(oc)[0]),),
                 (("key", gen),))
-        alts = [unsite(x) for x in alternatives(tab)]
+        alts = [plain(x) for x in alternatives(tab)]
         oks = want in alts and all(
             x == want or (x[0] == "comp" and x[2] == 0 and
                           x[1][0] == "call" and x[1][1][0] == "attr" and
@@ -683,7 +683,7 @@ def r4_aliases(program, rep):
                              ()))
         want = ("call", ("global", "sorted"), (("param", formals(oc)[0]),),
                 (("key", gen),))
-        alts = [unsite(x) for x in alternatives(tab)]
+        alts = [plain(x) for x in alternatives(tab)]
         oks = want in alts and all(
             x == want or (x[0] == "comp" and x[2] == 0 and
                           x[1][0] == "call" and x[1][1][0] == "attr" and
@@ -908,7 +908,7 @@ def r5_contract(program, rep):
                if M.term(c.func.value) == L]
         oki = len(ins) == 1 and M.term(ins[0].args[0]) == ("const", 0) and \
             M.term(ins[0].args[1]) == ("global", "_identity") and \
-            unsite(L) == ("call", ("global", "list"), (_P(meths),), ())
+            plain(L) == ("call", ("global", "list"), (_P(meths),), ())
     rep.check(okr and oki, "C04-R5", qual(mt), "with a target, the methods "
               "are tried in order, identity first; when none succeeds "
               "MinimisationFailedError(target, best) is raised",
